@@ -85,6 +85,16 @@ class C12(Prop):
 
         def rank(r):
             import torch.distributed as dist
+            calls = []
+            if not H.SHIM:
+                # real torch: record this process's new_group calls (the property's own statement)
+                orig_new_group = dist.new_group
+
+                def logging_new_group(ranks=None, *a, **k):
+                    calls.append(sorted(ranks) if ranks is not None else 'world')
+                    return orig_new_group(ranks, *a, **k)
+                dist.new_group = logging_new_group
+                GA.dist.new_group = logging_new_group
             topo = PipeModelDataParallelTopology(num_pp=p, num_mp=m, num_dp=d)
             # DeepSpeed creates every data- and model-parallel group on every rank, in the same order
             dp_group = mp_group = None
@@ -105,7 +115,7 @@ class C12(Prop):
                    'flags': (a.broadcast_gradients(), a.broadcast_inverses()),
                    'layers': tuple(a.get_layers()),
                    'recv_is_dp': a.grad_receiver_group(lnames[0]) is dp_group,
-                   'peer_group_members': None}
+                   'peer_group_members': None, 'new_group_calls': calls}
             pg = a.pipe_parallel_peer_group
             if H.SHIM and pg is not None:
                 out['peer_group_members'] = sorted(pg.ranks) if hasattr(pg, 'ranks') else 'non-member'
@@ -119,6 +129,10 @@ class C12(Prop):
             os.environ.pop('VK_FORCE_DIST', None)
         eng.oblige('groups-created-by-all-ranks-in-the-same-order-and-no-stall', not wr.violations,
                    info={'violations': str(wr.violations)[:400], 'topology': (p, d, m)})
+        if not H.SHIM and len(wr.results) == w:
+            seqs = [wr.results[r]['new_group_calls'] for r in range(w)]
+            eng.oblige('groups-created-by-all-ranks-in-the-same-order-and-no-stall', all(s_ == seqs[0] for s_ in seqs),
+                       info={'sequences': str({r: seqs[r] for r in range(w)})[:400]})
         eng.oblige('no-rank-raises', not wr.errors,
                    info={'errors': {str(k): f'{type(v).__name__}: {v}'[:200] for k, v in wr.errors.items()}})
         if wr.violations or wr.errors:
